@@ -1,6 +1,6 @@
 (* C02 - notify delivers every payload intact.  The slot formula is GENERATED from its four copies in sc_notify.c. *)
 From Coq Require Import ZArith List Bool Permutation.
-From ScV Require Import Base.CInt Gen.NotifyC01 C02.SlotProofs C02.PayloadModel C01.MergeModel C01.MergeProofs C01.MergeCorr.
+From ScV Require Import Base.CInt Gen.NotifyC01 C02.SlotProofs C02.PayloadModel C01.MergeModel C01.MergeProofs C01.MergeCorr Gen.Consts MPI.Prog C01.NotifyProgs C01.NotifyProgProofs.
 Import ListNotations.
 Local Open Scope Z_scope.
 
@@ -70,3 +70,18 @@ Example C02_merge_nonvacuous :
   notify_merge 2 (encode [(4, [(1, [10; 11]); (6, [60; 61])])]) (encode [(4, [(3, [30; 31])]); (5, [(0, [7; 8])])])
   = [4; 3; 1; 10; 11; 3; 30; 31; 6; 60; 61; 5; 1; 0; 7; 8].
 Proof. vm_compute. reflexivity. Qed.
+
+(* ---- pcx / rsx with one payload item per receiver (program co-simulated against the real code) ---------------
+   For every receiver family R, every payload family pay (pay s r = the bytes s addresses to r, any size), every
+   order of arrival: each rank sends pay me r to every r it lists and ends with the senders (ascending if sorted,
+   else in arrival order) and, at the position of sender s, exactly pay s me. *)
+Theorem C02_census_program : forall (coll : Z -> list payload -> Z -> payload) kind,
+  (forall cs r, coll kind cs r = [fold_right Z.add 0 (map (fun c => nth (Z.to_nat r) c 0) cs)]) ->
+  forall P (R : Z -> list Z) (pay : Z -> Z -> payload), 0 < P -> forall me (sorted : bool) (order : list Z),
+  0 <= me < P -> Permutation order (transpose P R me) ->
+  let final := if sorted then transpose P R me else order in
+  run (census_replies coll kind P R pay me order)
+      (census_core kind P (R me) (Some (map (pay me) (R me))) sorted (fun s g => Ret (result s g)))
+  = (census_actions kind P R pay me (length order), Some (result final (map (fun s => pay s me) final))).
+Proof. exact census_round. Qed.
+Print Assumptions C02_census_program.
